@@ -25,6 +25,7 @@ type GenOpts struct {
 	TypedefArgs  bool // every file gets typedefs of every shape and function signatures prefer them (C19)
 	Hostile      bool // draw identifiers and file names from the hostile pool (Go keywords, initialisms, generated-method names, std package names)
 	BackEdges    bool // cyclic includes: later files include earlier ones and typedef their types (compile-only properties)
+	SameBaseRuns bool // one program in two with >= 3 files gives three or four of its files, neighbours included, one base name in different directories; services prefer parents in same-named files (C19)
 	// Avoid lists defect classes the generator must not produce (known,
 	// unrepaired defects excluded by construction; each exclusion is counted
 	// by the caller through Excluded).
@@ -80,6 +81,7 @@ type gctx struct {
 	negIDsOK      bool     // negative field ids may be drawn (inside genStruct)
 	clusterName   string   // a type name every file of the program defines (name clusters)
 	enumItemNames []string // Go constant names of generated enum items (hostile collisions)
+	sameBaseRun   bool     // the program has a run of same-named files (SameBaseRuns)
 }
 
 func (g *gctx) label(s string) string { g.n++; return fmt.Sprintf("%s%d", s, g.n) }
@@ -145,7 +147,35 @@ func GenProgram(t *rapid.T, o *GenOpts) *Program {
 	used := map[string]bool{}
 	var files []*File
 	prevStem := ""
+	// a run of same-named files: a/types.thrift, b/types.thrift, c/types.thrift ... A file may
+	// include a file of its own base name (the include is visible under that name)
+	forced := map[int][2]string{}
+	if o.SameBaseRuns && nf >= 3 && g.chance(1, 2, "samebase_run") {
+		k := nf
+		if k > len(dirs) {
+			k = len(dirs)
+		}
+		k = g.intn(3, k, "samebase_k")
+		stem := pickStr(g, fileStems, "samebase_stem")
+		idx := make([]int, nf)
+		for i := range idx {
+			idx[i] = i
+		}
+		idx = rapid.Permutation(idx).Draw(g.t, "samebase_files")
+		dperm := rapid.Permutation(dirs).Draw(g.t, "samebase_dirs")
+		for n := 0; n < k; n++ {
+			forced[idx[n]] = [2]string{dperm[n], stem}
+			used[dperm[n]+stem] = true
+		}
+		used["stem:"+stem] = true
+		g.sameBaseRun = true
+	}
 	for i := 0; i < nf; i++ {
+		if fs, ok := forced[i]; ok {
+			prevStem = fs[1]
+			files = append(files, &File{Path: fs[0] + fs[1] + ".thrift"})
+			continue
+		}
 		stem := pickStr(g, fileStems, "fstem")
 		dir := pickStr(g, dirs, "fdir")
 		// the same base name may live in different directories (two files including both is
@@ -175,6 +205,9 @@ func GenProgram(t *rapid.T, o *GenOpts) *Program {
 		g.file = f
 		g.pool = nil
 		incNames := map[string]bool{IncludeName(f.Path): true}
+		if g.sameBaseRun {
+			incNames = map[string]bool{}
+		}
 		for j := i + 1; j < nf; j++ {
 			if j == i+1 || g.chance(1, 2, "inc") {
 				if incNames[IncludeName(files[j].Path)] {
@@ -1105,6 +1138,20 @@ func (g *gctx) genService() *Def {
 	if len(parents) > 0 && g.chance(1, 2, "extends") {
 		par := parents[g.intn(0, len(parents)-1, "parent")]
 		d.Parent = &Ref{File: par.File, Name: par.Name}
+	}
+	if g.sameBaseRun {
+		// chains of services across same-named files: a request for one file then carries
+		// ancestors (and their types) from several packages of one base name
+		var twins []*Def
+		for _, s := range parents {
+			if s.File != g.file.Path && IncludeName(s.File) == IncludeName(g.file.Path) {
+				twins = append(twins, s)
+			}
+		}
+		if len(twins) > 0 && g.chance(2, 3, "extends_twin") {
+			par := twins[g.intn(0, len(twins)-1, "parent_twin")]
+			d.Parent = &Ref{File: par.File, Name: par.Name}
+		}
 	}
 	usedFn := map[string]bool{}
 	for i, n := 0, g.intn(0, 4, "nfuncs"); i < n; i++ {
